@@ -5,6 +5,7 @@ import (
 	"fmt"
 	"regexp"
 	"strconv"
+	"strings"
 	"sync"
 	"time"
 
@@ -56,6 +57,7 @@ type FakeSup struct {
 	ExecLatency  time.Duration     // Exec returns this long after the process started
 	FullEnv      bool              // record complete environments in Exec events
 	ExitLag      time.Duration     // the termination event is sent this long after the process died
+	OnTermByPath bool              // C19 self-check: behaviour is taken from the shell script (ignoreterm / forkignore ignore TERM)
 	execWaiters  []chan struct{}
 	deliverDelay time.Duration
 }
@@ -110,6 +112,9 @@ func (s *FakeSup) Exec(ctx context.Context, req *supvmodel.ExecRequest) error {
 	p.onTerm = s.OnTerm[base]
 	if p.onTerm == "" {
 		p.onTerm = "exit"
+	}
+	if s.OnTermByPath && len(req.Args) == 2 && strings.Contains(req.Args[1], "trap '' TERM") {
+		p.onTerm = "ignore"
 	}
 	s.procs[req.Name] = p
 	s.order = append(s.order, p)
@@ -250,4 +255,13 @@ func (s *FakeSup) All() []*Proc {
 	s.mu.Lock()
 	defer s.mu.Unlock()
 	return append([]*Proc{}, s.order...)
+}
+
+// NewFakeSupWithRules returns a fake supervisor whose processes behave like the shell children of the
+// C19 driver, as far as the supervisor contract is concerned: they die only through Terminate (unless the
+// behaviour ignores it) or Kill.  Used to check the fake itself against spec/Supervisor.tla.
+func NewFakeSupWithRules(r *rec.Recorder) *FakeSup {
+	s := NewFakeSup(r)
+	s.OnTermByPath = true
+	return s
 }
